@@ -135,8 +135,9 @@ def check_polynomial_detrend(ctx, rule="R1-least-squares-polynomial-removed"):
 
 
 class DF(Obj):
-    """abstract DataFrame with two numeric columns and one non-numeric column."""
-    COLS = ("a", "b", "label")
+    """abstract DataFrame with a boolean (flag) column, two float columns and one non-numeric column, in that order."""
+    COLS = ("flag", "a", "b", "label")
+    KINDS = {"flag": "b", "a": "f", "b": "f", "label": "O"}
 
     def __init__(s, name, log):
         Obj.__init__(s, "DataFrame"); s.name = name; s.log = log
@@ -205,7 +206,7 @@ class Column(Obj):
     def _hook(s, kind, o, key, v, st):
         if kind == "getattr":
             if key == "dtype":
-                d = Obj("dtype"); d.attrs["kind"] = "O" if s.name == "label" else "f"; d.colname = s.name
+                d = Obj("dtype"); d.attrs["kind"] = DF.KINDS.get(s.name, "f"); d.colname = s.name
                 return d
             if key == "values": return ArrParam("col_" + s.name)
             return NotImplemented
@@ -263,6 +264,16 @@ def check_df_wrapper(ctx, fname, callee, rule, extra_args=(), shift=False):
                     return Marker("converted", of=o, how=name, args=list(args))       # recognised: the worker's output is post-processed
                 return NotImplemented
             I.hooks["method"] = method
+
+            def expr(I_, n, st):
+                # the dtype of a column's array is the column's dtype (so that a test of its kind is decided per column, not forked)
+                if isinstance(n, ast.Attribute) and n.attr == "dtype" and isinstance(n.value, ast.Name):
+                    v = st.env.get(n.value.id)
+                    if isinstance(v, ArrParam) and v.name.startswith("col_") and v.name[4:] in DF.KINDS:
+                        d = Obj("dtype"); d.attrs["kind"] = DF.KINDS[v.name[4:]]; d.colname = v.name[4:]
+                        return d
+                return NotImplemented
+            I.hooks["expr"] = expr
             df = DF("df", log)
             kw = {"columns": cols, "inplace": inplace}
             args = [df] + list(extra_args)
@@ -271,7 +282,7 @@ def check_df_wrapper(ctx, fname, callee, rule, extra_args=(), shift=False):
             except Unknown as ex:
                 ctx.unknown(rule, f"{key}[{label},inplace={inplace}]", str(ex), where); continue
             c = f"{key}[{label},inplace={inplace}]"
-            want_cols = ["a", "b"] if cols is None else ["a"]
+            want_cols = [c_ for c_ in DF.COLS if DF.KINDS[c_] in "biufc"] if cols is None else ["a"]
             # the caller's frame must not be written
             own = [e for e in log if e[0] == "df"]
             if own:
@@ -286,27 +297,28 @@ def check_df_wrapper(ctx, fname, callee, rule, extra_args=(), shift=False):
                     return (VIOLATED if (isinstance(r, Mismatch) or (not is_opaque(r) and not isinstance(r, PV))) else UNKNOWN,
                             (r.why if isinstance(r, Mismatch) else f"result is {r!r}, not the working copy")[:400], "[result]")
                 sets = dict((k, v) for k, v in r.sets)
-                bad = None
+                bad = None; unk = None
                 for col in want_cols:
                     keys = [k for k in sets if (k == col if inplace else (isinstance(k, str) and k.startswith(col) and k != col))]
-                    if len(keys) != 1: bad = f"column {col!r}: {len(keys)} result columns written ({sorted(map(str, sets))})"; break
+                    if len(keys) != 1: bad = bad or f"column {col!r}: {len(keys)} result columns written ({sorted(map(str, sets))})"; continue
                     v = sets[keys[0]]
                     if isinstance(v, Marker) and v.kind == "converted":
-                        bad = (f"column {keys[0]!r} receives the worker's output after .{v.info['how']}(...): converted before it is stored (a cast to the column's own dtype "
-                               "truncates the result for integer columns)"); break
+                        bad = bad or (f"column {keys[0]!r} receives the worker's output after .{v.info['how']}(...): converted before it is stored (a cast to the column's own dtype "
+                                      "truncates the result for integer columns)"); continue
                     if not (isinstance(v, Marker) and v.kind == "worked"):
-                        if is_opaque(v): return UNKNOWN, f"column {keys[0]!r} receives {v!r}", ""
-                        bad = f"column {keys[0]!r} receives {v!r}: the worker's output is converted or replaced before it is stored"; break
+                        if is_opaque(v): unk = unk or f"column {keys[0]!r} receives {v!r}"; continue
+                        bad = bad or f"column {keys[0]!r} receives {v!r}: the worker's output is converted or replaced before it is stored"; continue
                     d = v.info["data"]
                     if not (isinstance(d, ArrParam) and d.name == "col_" + col):
-                        bad = f"column {keys[0]!r} is computed from {d!r}, not from column {col!r}"; break
+                        bad = bad or f"column {keys[0]!r} is computed from {d!r}, not from column {col!r}"; continue
                     if shift:
-                        a0 = to_x(v.info["args"][0]) if v.info["args"] else None
+                        a0 = to_x(v.info["args"][0]) if v.info["args"] and not isinstance(v.info["args"][0], PV) and not is_opaque(v.info["args"][0]) else None
                         if a0 is None or not a0.eq(X.var("seconds") * X.var("fs")):
-                            bad = f"column {col!r} is shifted by {v.info['args'][0] if v.info['args'] else None!r} samples, not by seconds*fs"; break
+                            bad = bad or f"column {col!r} is shifted by {v.info['args'][0] if v.info['args'] else None!r} samples, not by seconds*fs"; continue
                 extra = [k for k in sets if not any((k == cl if inplace else str(k).startswith(cl)) for cl in want_cols)]
                 if bad is None and extra: bad = f"columns {extra} are written although they were not selected / are not numeric"
-                if bad is None and len(calls) != len(want_cols): bad = f"worker applied {len(calls)} times for {len(want_cols)} selected numeric columns"
+                if bad is None and unk is None and len(calls) != len(want_cols): bad = f"worker applied {len(calls)} times for {len(want_cols)} selected numeric columns"
+                if bad is None and unk is not None: return UNKNOWN, unk, ""
                 return (HOLDS if bad is None else VIOLATED), (f"{callee} applied to each of {want_cols} on a copy" if bad is None else bad), ""
             verdicts = [judge(l) for l in leaves]
             worst = next((v for v in verdicts if v[0] == VIOLATED), None) or next((v for v in verdicts if v[0] == UNKNOWN), None) or verdicts[0]
